@@ -190,6 +190,14 @@ func (a fedProto) FilterForwarding(c context.Context, potential []*url.URL, act 
 		if len(potential) > 0 {
 			out = potential[:1]
 		}
+	case "dropfirst-inplace":
+		// a filter written with the in-place idiom: it reuses (and so overwrites) the slice it was given
+		out = potential[:0]
+		for i, u := range potential {
+			if i != 0 {
+				out = append(out, u)
+			}
+		}
 	case "odd":
 		for i, u := range potential {
 			if i%2 == 1 {
